@@ -25,6 +25,7 @@ ASSUMPTIONS = [
     "the induction over operation histories is a paper argument from the per-operation obligations checked here",
 ]
 RULES = {
+    "C11.LIVE": "premises from the wake protocol, re-checked here for this family: task waker registered first, child polled with its own sub-waker (or the caller's context), no readiness lock across a child poll, a cleared bit is followed by a poll, re-arm after an item, readiness primitives / Wake::wake forward correctly",
     "C11.INSERT": "insert: growth test dominates the slab insert; key/state/arm/return all use the slab key",
     "C11.RESERVE": "reserve: no-op iff len+additional < capacity; else wakers, states, capacity := capacity+additional",
     "C11.REMOVE": "remove: key, state None and slab entry together iff present; returns presence",
@@ -51,6 +52,8 @@ def run(ctx):
         grouplike.rule_empty(ctx, M, u, "C11.EMPTY")
         rule_done(ctx, M, u)
         grouplike.rule_poll_shared(ctx, M, u, "C11")
+        from . import c01
+        c01.live_premises(ctx, M, [u], "C11.LIVE")
         ctx.floor("C11.VIEW", cfg, 7)
         ctx.floor("C11.DONE", cfg, 2)
         ctx.floor("C11.POLL", cfg, 4)
